@@ -282,9 +282,73 @@ let pr_line (o : out) (w : world) (l : netobs list) =
   Printf.sprintf "out=%s sj=%s pj=%s arts=%s junk=%d net=%s" (pr_out o) (pr_sj d.sj) (pr_pj d.pj)
     (pr_arts d) (if d.junk then 1 else 0) (Stdlib.String.concat ";" (List.map pr_net l))
 
+let rec nat_of_int i = if i <= 0 then O else S (nat_of_int (i - 1))
+let analyse : [ `None | `Crash | `Fail ] ref = ref `None
+let last_init : op option ref = ref None
+
+let abs_state (d : disk) =
+  Printf.sprintf "sj=%s pj=%s arts=%s junk=%d" (pr_sj d.sj) (pr_pj d.pj) (pr_arts d) (if d.junk then 1 else 0)
+
+(* all functions universe -> {0,1,2} (entries outside the universe: 0) *)
+let all_subs () : (n -> n) list =
+  let keys = Hashtbl.fold (fun _ v acc -> v :: acc) universe [] in
+  let rec go = function
+    | [] -> [[]]
+    | k :: r -> let rest = go r in
+      List.concat_map (fun a -> List.map (fun t -> (k, a) :: t) rest) [0; 1; 2] in
+  List.map (fun asg -> (fun (x : n) -> match List.assoc_opt x asg with Some v -> n_of_int v | None -> N0)) (go keys)
+
+let recovery (d : disk) : Stdlib.String.t =
+  match !last_init with
+  | None -> "noinit"
+  | Some io ->
+      let sh = sha and so = sigok and zd = zdec and b = bytes_of_ostring !base_blob in
+      let w0 = { w_disk = d; w_cfg = None } in
+      let outs = ref [] in
+      let wr = ref w0 in
+      List.iter (fun o -> let ((w', x), _) = step sh so zd b !wr o in wr := w'; outs := pr_out x :: !outs)
+        [io; ONextNum; ONextPath; OCurNum];
+      Stdlib.String.concat "," (List.rev !outs) ^ " " ^ abs_state !wr.w_disk
+
+let fault_analysis kind (w : world) (o : op) =
+  let b = bytes_of_ostring !base_blob in
+  let m = match o, w.w_cfg with
+    | OInit (relv, y, _), None ->
+        (match Model.cfg_of relv y with Some c -> Some (initM sha sigok c) | None -> None)
+    | _, Some c -> Some (callM sha sigok zdec b c o)
+    | _, None -> None in
+  match m with
+  | None -> ()
+  | Some m ->
+      let seen = Hashtbl.create 64 in
+      let subs = all_subs () in
+      let k = ref 0 in
+      let go_on = ref true in
+      while !go_on && !k < 60 do
+        let reached = ref false in
+        List.iter (fun sub ->
+            let pl = (match kind with `Crash -> CrashAt (nat_of_int !k, sub) | _ -> FailAt (nat_of_int !k, sub)) in
+            let (oc, d') = run_plan m pl w.w_disk in
+            (match kind, oc with
+             | `Crash, Died ->
+                 reached := true;
+                 let line = "CRASHSET " ^ abs_state d' ^ " || " ^ recovery d' in
+                 if not (Hashtbl.mem seen line) then (Hashtbl.add seen line (); print_endline line)
+             | `Crash, _ -> ()
+             | _, _ ->
+                 (* a FailAt plan beyond the last step behaves like NoFault: detect by comparing *)
+                 let (_, dn) = run_plan m NoFault w.w_disk in
+                 let line = "FAILSET " ^ abs_state d' in
+                 if abs_state dn <> abs_state d' || !k < 40 then reached := true;
+                 if not (Hashtbl.mem seen line) then (Hashtbl.add seen line (); print_endline line))) subs;
+        (match kind with
+         | `Crash -> if not !reached then go_on := false
+         | _ -> if !k >= 30 then go_on := false);
+        incr k
+      done
+
 let sched_ops : (int, op list) Hashtbl.t = Hashtbl.create 4
 let tracing = ref false
-let rec nat_of_int i = if i <= 0 then O else S (nat_of_int (i - 1))
 
 (* ---------- main loop: one file may contain many histories ---------- *)
 let () =
@@ -335,8 +399,15 @@ let () =
                 let d = w'.w_disk in
                 Printf.printf "out=%s sj=%s pj=%s arts=%s junk=%d net=%s\n" outs (pr_sj d.sj) (pr_pj d.pj)
                   (pr_arts d) (if d.junk then 1 else 0) (Stdlib.String.concat ";" net))
+       | ["crashop"] -> analyse := `Crash
+       | ["failop"] -> analyse := `Fail
        | "op" :: rest ->
            let o = parse_op rest in
+           (match o with OInit _ -> last_init := Some o | _ -> ());
+           if !analyse <> `None then begin
+             fault_analysis !analyse !w o;
+             analyse := `None
+           end;
            let acts = if !tracing then world_actions sha sigok zdec (bytes_of_ostring !base_blob) !w o else [] in
            let ((w', x), l) = step sha sigok zdec (bytes_of_ostring !base_blob) !w o in
            w := w';
